@@ -17,6 +17,16 @@ CHECKS = {
             "Generated-input search over histories of add_region/alloc/add_slave/add_master/finalize calls (fixed, unaligned, non-power-of-two, top-of-space, IO/cached/linker regions; 32/64-bit spaces), CSR/IRQ location requests with boundary numbers and reuse, and platform request/lookup/extension sequences. After every successful request the invariants of the property (pairwise disjoint power-of-two windows, allocated regions inside space/IO region and aligned, exact decoder accept sets, unique names/locations in range, resources granted once) are evaluated on the real objects; rejected requests end the design and the successful prefix is replayed. Exploration, not proof.",
             "Trusted: Hypothesis, Migen's expression Evaluator (used to evaluate decoder predicates), the harness' window arithmetic. Preconditions: unique (name, number) platform descriptions; alloc scans longer than 2^17 steps are not executed.",
             "DESIGN.md section 4 / C13"),
+    "C03": ("exploration",
+            "property-based testing (Hypothesis) + exhaustive schedule enumeration: per-element token-sequence reference models over generated parameters, token lists and valid/ready schedules on the Python simulator",
+            "Each case builds a fresh element (15 kinds incl. compositions, gearbox, gate/mux/demux) at generated parameters, drives it with a generated token list, producer schedule and consumer schedule (tagged styles: periodic, run-length, iid, prefix; garbage on idle payloads), feeds the tokens handshaken at the sink to an independent reference model and compares with the tokens handshaken at the source after a drain phase. 16 element configurations are additionally run under ALL producer x consumer schedules of length 6 (thorough: 8). Constructors are checked not to modify their arguments. Exploration: every interleaving up to the enumerated depth, sampled beyond.",
+            "Trusted: Migen's simulator (site-packages) as FHDL semantics, the harness agents and reference models (validated against the unchanged code and against mutants). Params constant inside an up-converted group; slots beyond valid_token_count unconstrained.",
+            "DESIGN.md section 4 / C03"),
+    "C04": ("exploration",
+            "property-based testing (Hypothesis): hold-rule monitor and bounded-progress invariant over generated schedules with long early stalls; cooperative phase entered from generated prefixes",
+            "Same element table as C03. Oracle 1: a monitor on the source endpoint checks valid(t)&~ready(t) => valid(t+1) and identical payload/param/first/last. Oracle 2: after the generated prefix the producer gets an endless token supply and the consumer is always ready; every window of B cycles (B from depth/ratio/latency) must contain a handshake on sink or source. Thorough adds the hold rule under all schedules of length 8 for 16 configurations. Bounded liveness from reached states only - a deadlock state no generated prefix reaches is not found.",
+            "Trusted: Migen's simulator, harness agents/monitors. Control inputs (sel/enable) held constant. Progress bound B is generous (healthy elements show a handshake every cycle).",
+            "DESIGN.md section 4 / C04"),
 }
 
 NOT_YET = {}
